@@ -43,6 +43,7 @@ SUITE=$(grep -c "^FAIL\|^--- FAIL\|^panic" $W/suite.log)
 echo "suite with change: $(grep -c '^ok' $W/suite.log) packages ok, $SUITE failures"
 RES=""
 for c in $CHECKS; do
+  [ "$c" = none ] && continue
   ( cd ${VERIF_DIR:-/verif} && VERIF_REPO=$W/with ./vcheck $c --tier quick > $W/check_$c.log 2>&1 ); RC=$?
   NV=$(grep -c "^VIOLATION" $W/check_$c.log)
   echo "check $c: exit $RC, $NV violation lines; first: $(grep -m1 -A1 '^VIOLATION' $W/check_$c.log | tail -1 | cut -c1-300)"
